@@ -1039,10 +1039,65 @@ def run(ctx):
         core.merge(ctx, parts)
         ctx.model.calls += ctx.hist.pop('model_driver_requests', 0)
         extras(ctx)
+        numeric_enum_cases(ctx)
         regressions(ctx)
         witnesses(ctx)
     finally:
         ALPHABETS['UTF8String'] = saved
+
+
+def numeric_enum_cases(ctx):
+    """numeric_enums=True: ENUMERATED values are given as numbers, the text still names the identifier OF THAT TYPE.  Several
+    ENUMERATED types with the same identifiers in the same order and different numberings, in one module and in modules compiled one
+    after the other in this process; oracle = the name-based compile of the same text (the identifier whose number it is)."""
+    rng = ctx.rng
+    idsets = [['low', 'high'], ['red', 'green', 'blue'], ['a', 'b', 'c', 'd']]
+    for case in range(ctx.n(12, 120)):
+        ids = rng.choice(idsets)
+        defs, tables = [], {}
+        for k in range(rng.randint(2, 4)):
+            nums = rng.sample(range(0, 12), len(ids)) if rng.random() < 0.8 else list(range(len(ids)))
+            if k == 0 and rng.random() < 0.6:
+                nums = list(range(len(ids)))                 # the plain ENUMERATED { low, high }
+                body = ', '.join(ids)
+            else:
+                body = ', '.join('%s(%d)' % (i, n) for i, n in zip(ids, nums))
+            defs.append('E%d ::= ENUMERATED { %s }' % (k, body))
+            tables['E%d' % k] = dict(zip(nums, ids))
+        members = ', '.join('m%d E%d' % (k, k) for k in range(len(defs)))
+        text = ('M DEFINITIONS AUTOMATIC TAGS ::= BEGIN\n' + '\n'.join(defs) +
+                '\nS ::= SEQUENCE { %s }\nL ::= SEQUENCE OF E%d\nC ::= CHOICE { x E%d, y E0 }\nEND\n' % (members, len(defs) - 1, len(defs) - 1))
+        stn, num = impl.compile_text(text, 'gser', numeric_enums=True)
+        sts, sym = impl.compile_text(text, 'gser')
+        if stn != 'ok' or sts != 'ok':
+            ctx.count('numeric-enum.compile-failed')
+            continue
+        last = 'E%d' % (len(defs) - 1)
+        probes = []
+        for tn, tb in tables.items():
+            for n_, i_ in tb.items():
+                probes.append((tn, n_, i_))
+        probes.append(('S', {'m%d' % k: rng.choice(list(tables['E%d' % k])) for k in range(len(defs))}, None))
+        probes.append(('L', [rng.choice(list(tables[last])) for _ in range(3)], None))
+        probes.append(('C', ('x', rng.choice(list(tables[last]))), None))
+        for tn, nv, _ in probes:
+            if tn == 'S':
+                sv = {m: tables['E' + m[1:]][x] for m, x in nv.items()}
+            elif tn == 'L':
+                sv = [tables[last][x] for x in nv]
+            elif tn == 'C':
+                sv = ('x', tables[last][nv[1]])
+            else:
+                sv = tables[tn][nv]
+            for indent in (None, 2):
+                kw = {} if indent is None else {'indent': indent}
+                a = impl.encode(num, tn, nv, **kw)
+                b = impl.encode(sym, tn, sv, **kw)
+                ctx.case(('numeric-enum', text, tn, repr(nv), indent))
+                ctx.count('numeric-enum.' + a[0])
+                if a[:2] != b[:2]:
+                    ctx.violation('gser with numeric_enums=True: the text does not name the identifier that the number stands for in ITS OWN type',
+                                  {'module': text, 'type': tn, 'value_numeric': repr(nv), 'value_by_name': repr(sv), 'numeric_text': repr(a[1])[:300], 'name_based_text': repr(b[1])[:300]})
 
 
 def replay(ctx, path):
